@@ -73,10 +73,11 @@ def in_domain_s(bs):
     if r is None:
         return False
     if r[1] == 5:
+        # the fifth byte carries value bits 28..31 in its low nibble; bits 4..6 lie beyond 32 bits. They are in the domain when they are a sign
+        # extension of bit 31 (canonical) or all zero (only the 32 value bits given: Leb128.java and the DEX tools read the low 32 bits)
         b = bs[4]
         ext = (b >> 4) & 0x7
-        want = 0x7 if b & 0x08 else 0
-        if ext != want:
+        if ext != 0 and ext != (0x7 if b & 0x08 else 0):
             return False
     return True
 
@@ -93,7 +94,7 @@ def run(ctx):
     ctx.rule = ("direct calls of the real LEB128 functions on byte sequences; a case is a byte sequence or a value; "
                 "non-trivial/distinct = distinct (function, encoded length, canonical?, sign, boundary-class) signatures")
     ctx.assumptions = ["Leb128.java semantics re-implemented in vf/checks/c03.py is the reference",
-                       "5-byte sequences encoding more than 32 bits (undefined in the spec) are excluded"]
+                       "5-byte sequences whose fifth byte has bits 4-6 set inconsistently (more than 32 significant bits, undefined in the spec) are excluded"]
     rng = ctx.rng("c03")
 
     def check_decode(bs, tag):
